@@ -15,6 +15,15 @@ pub trait Power {
     }
 }
 
+/// Like `pretty_exponent`, but only uses the unicode form if it can be read back: the
+/// tokenizer accepts a single superscript digit (with an optional minus sign).
+pub fn pretty_exponent_parseable(e: &Exponent) -> CompactString {
+    if e.is_integer() && !(-9..=9).contains(e.numer()) {
+        return format_compact!("^{e}");
+    }
+    pretty_exponent(e)
+}
+
 pub fn pretty_exponent(e: &Exponent) -> CompactString {
     if !e.is_integer() {
         return format_compact!("^({e})");
